@@ -140,14 +140,16 @@ func genCase(t *rapid.T) Case {
 		kinds = append(append([]string(nil), quickBackends...), bSSH)
 	}
 	modes := []string{mGet, mGet, mGet, mGet, mGet, mGet, mPipeline, mPipeline, mPipeline, mInconsistent}
-	if hx.Thorough() && os.Getenv("VERIF_DESYNC_BIN") != "" {
+	if os.Getenv("VERIF_DESYNC_BIN") != "" {
 		modes = append(modes, mCLI)
+		if hx.Thorough() {
+			modes = append(modes, mCLI)
+		}
 	}
 	c.Mode = rapid.SampledFrom(modes).Draw(t, "mode")
 	if c.Mode == mCLI {
 		c.CLI = genCLI(t)
-		c.Pipe = genPipe(t, false)
-		c.Pipe.Consumer = map[string]string{"extract": cAssemble, "cat": cReadSeeker, "untar": cUnTarIndex}[c.CLI.Cmd]
+		c.Pipe = genPipeFor(t, map[string]string{"extract": cAssemble, "cat": cReadSeeker, "untar": cUnTarIndex}[c.CLI.Cmd], false)
 		c.Backend = Backend{Kind: bLocal, Unc: rapid.Bool().Draw(t, "unc"), Enc: rapid.IntRange(0, 3).Draw(t, "enc")}
 		c.Corr = genCorr(t, c.Backend.Unc)
 		c.Other = genChunkSpec(t, "o", 5000)
@@ -518,6 +520,13 @@ var requiredClasses = func() []string {
 		"pipeline:" + cAssemble + ":poisoned-fetch", "pipeline:" + cReadSeeker + ":poisoned-fetch", "pipeline:" + cUnTarIndex + ":poisoned-fetch", "pipeline:" + cSparse + ":poisoned-fetch",
 		"inconsistent:" + cAssemble, "inconsistent:" + cReadSeeker, "inconsistent:" + cUnTarIndex, "inconsistent:" + cSparse,
 		"inconsistent:index-claims-more", "inconsistent:index-claims-less"}
+	req = append(req, "consumer:readseeker:"+drainRead, "consumer:readseeker:"+drainCopy, "consumer:readseeker:"+drainCopyBuffer,
+		"consumer:untarindex:tree:"+treeMeta, "consumer:untarindex:tree:"+treeMixed, "consumer:untarindex:victim-chunk-metadata-only")
+	if os.Getenv("VERIF_DESYNC_BIN") != "" { // the commands themselves (the registered plan builds the binary)
+		req = append(req, "mode:cli", "consumer:cli-cat:whole", "consumer:cli-cat:window", "consumer:cli-cat:stdout", "consumer:cli-cat:file",
+			"consumer:cli-untar:gnu-tar", "consumer:cli-untar:disk", "consumer:cli-untar:victim-chunk-metadata-only",
+			"consumer:cli-untar:gnu-tar:victim-chunk-metadata-only", "consumer:cli-extract")
+	}
 	for _, b := range quickBackends {
 		req = append(req, "backend:"+b+":compressed")
 		if b != bProtoScript {
